@@ -651,3 +651,64 @@ def rule_strideknown(ctx, prop: str) -> RuleResult:
                 )
     res.floor = 2
     return res
+
+
+def rule_stageguard(ctx, prop: str) -> RuleResult:
+    """stage_mem deliberately accepts windows that stick out of the source buffer and relies on
+    `insert_safety_guards` to keep the generated load / store loops in bounds (the final
+    Check_Bounds only covers the NEW staging buffer).  For every dimension BOTH bound conditions
+    (0 <= idx, idx < dim) are built, and each one is dropped only when it was itself proved in
+    context: the append of a condition C to the guard list is governed by `not check_cond(C)`
+    and by nothing else.  Chained with `elif`, the upper bound of a dimension whose lower bound
+    is unprovable is never even considered (halo window x[i-1:i+2]: x[n] is touched)."""
+    ix = ctx.ix
+    res = RuleResult("STAGEGUARD")
+    f = ix.func(S, "DoStageMem.insert_safety_guards")
+    res.analysed.append(f"{S}:DoStageMem.insert_safety_guards")
+    prover = "check_cond"
+    # conditions built in the function: name -> comparison operator
+    conds: Dict[str, str] = {}
+    for n in f.body_nodes():
+        if isinstance(n, ast.Assign) and len(n.targets) == 1 and isinstance(n.targets[0], ast.Name) and isinstance(n.value, ast.Call) and dotted(n.value.func) == "LoopIR.BinOp" and n.value.args:
+            a0 = n.value.args[0]
+            if isinstance(a0, ast.Constant) and a0.value in ("<", "<=", ">", ">="):
+                conds[n.targets[0].id] = a0.value
+    if len(conds) < 2:
+        raise AnalysisError("anchor vanished: insert_safety_guards no longer builds a lower- and an upper-bound condition per dimension")
+    ops = sorted(conds.values())
+    res.instances += 1
+    res.nontrivial += 1
+    ok = any(o in ("<=", ">=") for o in ops) and any(o in ("<", ">") for o in ops)
+    res.ob(ok)
+    if not ok:
+        res.add(Finding("STAGEGUARD", S, f.lineno, f.qualname, "both-bounds", "both `0 <= idx` and `idx < dim` must be built for every dimension"))
+    for c, op in sorted(conds.items()):
+        res.instances += 1
+        res.nontrivial += 1
+        appends = [n for n in f.body_nodes() if isinstance(n, ast.Call) and isinstance(n.func, ast.Attribute) and n.func.attr == "append" and n.args and isinstance(n.args[0], ast.Name) and n.args[0].id == c]
+        good = False
+        why = "is never appended to the guard list"
+        for a in appends:
+            govern = []
+            p = a
+            while p is not None and p is not f.node:
+                q = parent(p)
+                if isinstance(q, ast.If):
+                    if any(p is s for s in q.body):
+                        govern.append(("T", q.test))
+                    elif any(p is s for s in q.orelse):
+                        govern.append(("F", q.test))
+                p = q
+            want = f"not {prover}({c})"
+            if len(govern) == 1 and govern[0][0] == "T" and ast.unparse(govern[0][1]) == want:
+                good = True
+            else:
+                why = "is appended under `" + " / ".join(("" if pol == "T" else "else of ") + ast.unparse(t)[:50] for pol, t in govern) + f"` instead of `{want}` alone"
+        res.ob(good)
+        res.sample(f"insert_safety_guards: condition `{c}` ({op}) kept unless itself proved: {good}")
+        if not good:
+            res.add(Finding("STAGEGUARD", S, f.lineno, f.qualname, f"guard:{op}",
+                            f"the bound condition `{c}` {why}: when the other bound of the same dimension is unprovable this one is silently dropped and the load / store loop of stage_mem "
+                            f"accesses the source buffer out of bounds (halo window x[i-1:i+2] touches x[n])"))
+    res.floor = 3
+    return res
